@@ -48,6 +48,10 @@ def fonts():
     return _FONTS
 
 
+# different names that a lossy key (case-folded, blanks to hyphens, trimmed) would identify
+NEAR_NAMES = ["Total Row", "total-row", "Total-Row", "total row", "TOTAL ROW", "Total Row "]
+
+
 def gen_attrs(rng) -> dict:
     a = {}
     def maybe(p=0.5):
@@ -168,6 +172,20 @@ def gen(seed: int, tier: str, idx=None):
     names, wts = list(weights), list(weights.values())
     if arm != "borders":
         g.emit({"op": "add_style", "d": 0, "attrs": gen_attrs(rng), "name": rng.choice([None, "Red Text", "S1"])})
+    if arm != "borders" and rng0.random() < 0.2:
+        # two styles whose NAMES nearly coincide (case, blank versus hyphen) and whose attributes differ, both in use
+        n1, n2 = rng.sample(NEAR_NAMES, 2)
+        tm0 = g.ms.docs[0].model.sheets[0].tables[0]
+        for k, nm in enumerate((n1, n2)):
+            g.emit({"op": "add_style", "d": 0, "attrs": gen_attrs(rng), "name": nm})
+            names_now = list(g.ms.docs[0].model.styles)
+            if nm in names_now:
+                g.emit({"op": "set_style", "d": 0, "s": 0, "t": 0, "r": k % tm0.nrows, "c": g.index(tm0.ncols), "style": names_now.index(nm), "via": "set"})
+            if k == 0 and rng.random() < 0.4:
+                slot = rng.choice(ALL_SLOTS)
+                g.emit({"op": "save", "d": 0, "slot": slot})
+                if rng.random() < 0.5:
+                    g.emit({"op": "restart", "d": 0, "slot": slot})
     for _ in range(steps):
         kind = rng.choices(names, wts)[0]
         m = g.ms.docs[0].model
@@ -186,7 +204,7 @@ def gen(seed: int, tier: str, idx=None):
                 if tm.ncols > 1:
                     g.emit({"op": "set_style", "d": 0, "s": 0, "t": t, "r": r0, "c": (c0 + 1) % tm.ncols, "style": len(names_now) - 1, "via": "set"})
             else:
-                g.emit({"op": "add_style", "d": 0, "attrs": gen_attrs(rng), "name": rng.choice([None, None, "Bold " + str(rng.randrange(4)), "Ünï " + str(rng.randrange(3))])})
+                g.emit({"op": "add_style", "d": 0, "attrs": gen_attrs(rng), "name": rng.choice([None, None, "Bold " + str(rng.randrange(4)), "Ünï " + str(rng.randrange(3)), rng.choice(NEAR_NAMES)])})
         elif kind == "mutate_style":
             if m.styles:
                 var = gen_variant(rng, {})
